@@ -45,9 +45,9 @@ theorem rule_goal (cx : PCtx) (hnl : cx.nl = 0) (l : Nat) (c r : CTree)
     (hc : wfK cx.rxOk .cond c = true) (hpc : treePOK c = true) (hpr : treePOK r = true)
     (hr : (wfK cx.rxOk .block r = true ∧ r.countActions > 0 ∧ Goal cx .block r) ∨
           (wfK cx.rxOk .acts r = true ∧ aloneOK r = true ∧ Goal cx .acts r))
-    (acc : Option CTree) (t0 : PTok) (ts : List PTok) (Q : CTree → PState → Prop) (ht0 : stopAct t0 = true)
+    (acc : Option CTree) (t0 : PTok) (ts : List PTok) (Q : CTree → ParseSt → Prop) (ht0 : stopAct t0 = true)
     (hQ : ∀ fuel' s', Up s' (t0 :: ts) → wp (parseExprs cx fuel' (some (joinR acc (relabel (.mtch l c r))))) Q NoErr True s')
-    (fuel : Nat) (s : PState)
+    (fuel : Nat) (s : ParseSt)
     (hs : Up s (.kw .mtch :: (toks .cond c ++ (if isBlock r then toks .block r else toks .acts r)) ++ t0 :: ts)) :
     wp (parseExprs cx fuel acc) Q NoErr True s := by
   cases fuel with
@@ -269,7 +269,7 @@ theorem all_rt (cx : PCtx) (hnl : cx.nl = 0) : ∀ (t : CTree) (k : Kind), wfK c
     rw [treePOK_mtch, Bool.and_eq_true] at hp
     have key : wfK cx.rxOk .cond c = true →
         ((wfK cx.rxOk .block r = true ∧ r.countActions > 0) ∨ (wfK cx.rxOk .acts r = true ∧ aloneOK r = true)) →
-        ∀ (acc : Option CTree) (t0 : PTok) (ts : List PTok) (Q : CTree → PState → Prop), stopAct t0 = true →
+        ∀ (acc : Option CTree) (t0 : PTok) (ts : List PTok) (Q : CTree → ParseSt → Prop), stopAct t0 = true →
         (∀ fuel' s', Up s' (t0 :: ts) → wp (parseExprs cx fuel' (some (joinR acc (relabel (.mtch l c r))))) Q NoErr True s') →
         ∀ fuel s, Up s (.kw .mtch :: (toks .cond c ++ (if isBlock r then toks .block r else toks .acts r)) ++ t0 :: ts) →
           wp (parseExprs cx fuel acc) Q NoErr True s := by
